@@ -6,6 +6,20 @@ from progs import *
 import l1, gen, corpus, l1props, c16
 from concurrent.futures import ThreadPoolExecutor
 
+_nd = {}
+def nondet(src, dialect, d):
+    """is prqlc::compile itself non-deterministic on this source? (then path disagreement is C11's finding)"""
+    key = (src, dialect)
+    if key not in _nd:
+        p = os.path.join(d, "nd.prql"); open(p, "w").write(src)
+        r = pv(["repeat", p, dialect or "-", "24"], check=False)
+        try:
+            j = json.loads(r.stdout)
+            _nd[key] = ("sql" if j["outputs"][0].startswith("SQL") else "err") if j["distinct"] > 1 else "no"
+        except Exception:
+            _nd[key] = "no"
+    return _nd[key]
+
 def check(tier):
     rep = Report("C15", tier)
     d = workdir("C15")
@@ -59,9 +73,10 @@ def check(tier):
         c = tuples(tout, "COUNTS"); nvalid += c[-1][1] if c else 0
         for r in tuples(tout, "REJECT"):
             sid, ci = r[1].rsplit("#", 1)
+            nd = nondet(src_of.get(sid, ""), cfgs[int(ci)]["dialect"], d)
             rep.violation({"property": "C15", "kind": "stage-" + r[2] + "->" + str(r[3]), "prql": src_of.get(sid), "config": cfgs[int(ci)],
                            "function": r[2], "at_node": r[3], "trace_file": os.path.relpath(ev, ROOT), "line": r[4]},
-                          {"what": "stages", "f": r[2], "dst": str(r[3]), "src": src_of.get(sid, "")})
+                          {"what": "stages", "f": r[2], "dst": str(r[3]), "src": src_of.get(sid, ""), "nondet": nd})
     # binding demonstration: change one artefact id on a staged path -> the diagram no longer commutes
     evs = read_ndjson(results[0][0])[:3000]
     k = 0
